@@ -599,6 +599,26 @@ Section Tree.
   Theorem dump_ignores_attrs_deep a b : erase a = erase b -> dump_raw printable a = dump_raw printable b.
   Proof. intros H. rewrite !dump_raw_erase, H. reflexivity. Qed.
 
+  Lemma is_none_strip x : is_none (strip x) = is_none x.
+  Proof. destruct x as [c fs ats|l|[]]; reflexivity. Qed.
+
+  Lemma erase_strip : forall r, erase (strip r) = erase r.
+  Proof.
+    induction r as [c fs ats IH | l IH | a] using rval_ind'.
+    - cbn [strip erase]. f_equal.
+      induction IH as [|[[k d] [x|]] fs Hx _ IHfs]; [reflexivity| |].
+      + unfold Pslot in Hx. cbn [snd] in Hx. rewrite is_none_strip.
+        destruct (d && is_none x); [exact IHfs|]. rewrite Hx, IHfs. reflexivity.
+      + exact IHfs.
+    - cbn [strip erase]. f_equal. rewrite map_map.
+      induction IH as [|x l Hx _ IHl]; [reflexivity|]. cbn [map]. rewrite Hx, IHl. reflexivity.
+    - reflexivity.
+  Qed.
+
+  (* removing every attribute everywhere in the tree leaves the hash unchanged *)
+  Theorem hash_ignores_all_attrs r : hash printable md5 (strip r) = hash printable md5 r.
+  Proof. apply hash_complete. apply erase_strip. Qed.
+
   (* a structural difference always shows in the dump, hence in the hash unless md5 collides *)
   Corollary edit_changes_dump a b : wf a = true -> wf b = true -> a <> b -> dump printable a <> dump printable b.
   Proof. intros Wa Wb Hne H. apply Hne. apply dump_injective; assumption. Qed.
